@@ -45,6 +45,14 @@ CHECKS = {
              "annotations attached to routine outputs (lanczos, arnoldi, eig, svd, matrix functions, inv) are tested "
              "numerically on the returned matrices.",
         design="5/C05", technique="TLC state enumeration of MC_Ops + exact annotation oracle + spec-to-code replay"),
+    "C06": dict(
+        text="TLC computes the exact inverse adj/det (Gaussian rationals), determinant and positive-definiteness of "
+             "every square tree it enumerates (all kinds with an inverse rule and their nestings, true PSD/Unitary "
+             "declarations); replay solves with Auto, LU, Cholesky, CG and GMRES through inv/solve and compares dense "
+             "inverse, products, left products and transposes with TLC's exact inverse (iterative ones to a residual-"
+             "level tolerance); both sides of Auto's 10^6-entry switch are exercised on 2^9 / 2^10 Kronecker operators "
+             "with a factor-wise exact inverse.",
+        design="5/C06", technique="TLC exact inverse oracle over enumerated trees + spec-to-code replay"),
     "C20": dict(
         text="TLC resolves every index form (ints, slices incl. negative/strided/empty, integer arrays, lists) with the "
              "transcribed Python slice.indices / negative-wrap semantics (PyIndex.tla) on every operator tree and "
